@@ -306,7 +306,10 @@ def wfTplPad (pad : Bytes) : Bool := decide (pad.length ≤ 4)
 /-- padding of a data set, RFC 7011 §3.3.1: "The padding length MUST be shorter than any allowable record
 in this Set" — shorter than `minRecLen t`; any content (the RFC's "SHOULD be zero" is not needed).  Before
 the padding repair (F16) this read `pad.length ≤ 4`, a bound forced by the decoder's constant `> 4` and
-not by the RFC: 8-octet alignment after records of 8 or more octets gives up to 7 octets. -/
+not by the RFC: 8-octet alignment after records of 8 or more octets gives up to 7 octets.  The new bound is
+weaker than the old one except for templates whose shortest record has at most 4 octets (variable-length
+fields): there `minRecLen t ≤ pad.length ≤ 4` was accepted before and is not now — such octets are records, not
+padding (`C03.padding_not_shorter_than_a_record_is_data`). -/
 def wfDataPad (t : Template) (pad : Bytes) : Bool := decide (pad.length < minRecLen t)
 
 /-- as for v9; a record's length depends on its variable-length values, so "positive length" is part of
